@@ -986,6 +986,33 @@ Proof.
     split; [reflexivity|]. unfold counter_overflowed, dec_overflows. destruct (Z.ltb_spec (n - t - 1) int_min); [lia|reflexivity].
 Qed.
 
+(* the GENERATED test covers every count an int can hold: at or below 1 it removes without
+   decrementing (the repair of observation P9), above 1 the decrement stays in range.
+   A header whose test decrements at INT_MIN (`if(--data->triggerCount <= 0)`) fails here. *)
+Lemma generated_counter_test_ok_full islist : step_ok full_range true (GenAutoRemove.counter_step islist).
+Proof.
+  intros n t [R1 R2] T. pose proof int_min_nonpos as M.
+  assert (W : (1 < n - t)%Z -> int_dec (n - t) = (n - (t + 1))%Z).
+  { intros G. unfold int_dec, wrap. destruct (Z.ltb_spec (n - t - 1) int_min); [lia|]. destruct (Z.ltb_spec int_max (n - t - 1)); lia. }
+  assert (O : (1 < n - t)%Z -> dec_overflows (n - t) = false).
+  { intros G. unfold dec_overflows. destruct (Z.ltb_spec (n - t - 1) int_min); [lia|reflexivity]. }
+  unfold GenAutoRemove.counter_step. destruct islist; cbv zeta;
+    (destruct (Z.leb_spec (n - t) 1) as [G|G];
+     [ eexists; eexists; split; [reflexivity|]; split; [split; intros; try discriminate; lia|]; split; [discriminate|];
+       unfold counter_overflowed; rewrite Z.eqb_refl; simpl; apply andb_false_r
+     | rewrite (W G); eexists; eexists; split; [reflexivity|];
+       split; [destruct (Z.leb_spec (n - (t + 1)) 0); split; intros; try discriminate; try reflexivity; lia|];
+       split; [intros; reflexivity|unfold counter_overflowed; rewrite (O G); reflexivity] ]).
+Qed.
+
+Lemma gen_leafs_ok_full islist : leafs_ok full_range (gen_leafs islist).
+Proof.
+  unfold leafs_ok, gen_leafs; simpl.
+  split; [apply generated_counter_test_ok_full|]. split; [apply generated_counter_removes_before_call|].
+  split; [apply generated_cond_removes_before_call|]. split; [apply generated_cond_receives_arguments_iff_accepted|].
+  split; [apply generated_counter_state_in_shared_data|apply generated_cond_state_in_shared_data].
+Qed.
+
 (* ---------- trigger count INT_MIN: the decrement overflows ---------- *)
 
 Definition int_min_prog : list acmd :=
